@@ -322,6 +322,33 @@ def attrsOK (s : List Char) : Bool :=
   | ' ' :: _ => attrsOKF s.length s
   | _ => attrsOKF (s.length + 1) (' ' :: s)
 
+/-- characters that END an attribute name for an HTML tokeniser: tab, LF, FF, CR (normalised to LF by the input stream
+    preprocessor), space, `/`, `>`, `=`.  Fixed from the HTML standard — deliberately NOT read from `_attr_key_re`, so that
+    a weakened key pattern is judged against the standard and not against itself. -/
+def htmlNameBreakers : List Char := [' ', '\t', '\n', Char.ofNat 0x0c, '\r', '/', '>', '=']
+
+/-- `attrsOK` with the attribute-name rule of the HTML standard instead of the generated key class -/
+def attrsStrictF : Nat → List Char → Bool
+  | _, [] => true
+  | 0, _ :: _ => false
+  | n + 1, c :: r =>
+    if c = ' ' then
+      let k := r.takeWhile fun c => c != '='
+      if k.any (fun c => isM c || htmlNameBreakers.contains c) then false else
+      match r.drop k.length with
+      | '=' :: '"' :: r1 =>
+        match readUntil '"' r1 with
+        | none => false
+        | some (_, r2) => if r2.length ≤ n then attrsStrictF n r2 else false
+      | _ => false
+    else false
+
+def attrsStrictOK (s : List Char) : Bool :=
+  match s with
+  | [] => true
+  | ' ' :: _ => attrsStrictF s.length s
+  | _ => attrsStrictF (s.length + 1) (' ' :: s)
+
 /-! ## the `markupsafe.Markup` / `str` methods the filters call, on `Val` -/
 
 /-- `a + b` (str.__add__, Markup.__add__, Markup.__radd__: markupsafe/__init__.py:117-127) -/
